@@ -235,7 +235,9 @@ class FockState(BaseFockState):
 
         fock_probabilities = self.fock_probabilities
 
-        if not np.all(fock_probabilities >= 0.0):
+        if not np.all(
+            (fock_probabilities >= 0.0) | np.isclose(fock_probabilities, 0.0)
+        ):
             raise InvalidState(
                 "The density matrix is not positive semidefinite.\n"
                 f"fock_probabilities={fock_probabilities}"
